@@ -231,6 +231,35 @@ def push_ret(seq):
     return {"steps": st[:-1] + [new], "ret": ["ok", hole]}
 
 
+def merge_many1(seq):
+    """`p` once, then `many0(p)`, the results joined into one list, is `many1(p)` (nom: many1 = one mandatory application,
+    then the many0 loop)"""
+    import copy
+    st, r = seq["steps"], seq["ret"]
+    if not r or r[0] != "ok":
+        return seq
+    for i in range(len(st) - 1):
+        a, b_ = st[i], st[i + 1]
+        if b_[0] != "many0" or len(a) < 3 or not isinstance(a[-1], dict) or a[0] in ("many0", "many1"):
+            continue
+        inner = b_[2]
+        if len(inner["steps"]) != 1 or inner["ret"] != ["ok", ["v", inner["steps"][0][1]]]:
+            continue
+        x, y = copy.deepcopy(a), copy.deepcopy(inner["steps"][0])
+        ka = json.dumps(renumber({"steps": [x], "ret": ["ok", ["v", x[1]]]}), sort_keys=True)
+        kb = json.dumps(renumber({"steps": [y], "ret": ["ok", ["v", y[1]]]}), sort_keys=True)
+        if ka != kb:
+            continue
+        joined = ["concat", ["vec", [["v", a[1]]]], ["v", b_[1]]]
+        if not occurs(r[1], joined):
+            continue
+        rest = subst(r[1], joined, ["v", b_[1]])
+        if occurs(rest, ["v", a[1]]) or any(occurs(s_, ["v", a[1]]) for s_ in st[i + 2:]):
+            continue
+        return merge_many1({"steps": st[:i] + [["many1", b_[1], inner]] + st[i + 2:], "ret": ["ok", rest]})
+    return seq
+
+
 HOISTABLE = ("u", "bytes", "tag", "param_parser")
 
 
@@ -488,7 +517,7 @@ class Builder:
             v = fn(self)
             if self.ret is None:
                 self.ret = ["ok", v]
-            canon_seq = push_ret(self.seq())
+            canon_seq = push_ret(merge_many1(self.seq()))
             self.steps, self.ret = canon_seq["steps"], canon_seq["ret"]
         except Fail as f:
             self.ret = ["err", f.kind, f.severity]
@@ -1323,6 +1352,18 @@ class Ev:
                               lambda nb: self.eval_result_block_noskip(rest_block, env, gen, nb))
                     return (v,)
                 raise Opaque("statement-level if without return")
+            if e["k"] == "mcall" and strip(e["recv"]).get("k") == "local" and strip(e["recv"])["id"] in env and not has_effects(e):
+                # growth of a local Vec that is being assembled: records.push(x) / records.extend(xs)
+                rid = strip(e["recv"])["id"]
+                nm = e.get("path") or e["name"]
+                old = env[rid]
+                if nm.endswith("::push") and len(e["args"]) == 1 and isinstance(old, list):
+                    x = self.sym(e["args"][0], env, gen)
+                    env[rid] = ["vec", old[1] + [x]] if old[0] == "vec" else ["concat", old, ["vec", [x]]]
+                    return None
+                if (nm.endswith("::extend") or nm.endswith("::append") or nm.endswith("::extend_from_slice")) and len(e["args"]) == 1 and isinstance(old, list):
+                    env[rid] = ["concat", old, self.sym(e["args"][0], env, gen)]
+                    return None
             if e["k"] == "match" and is_try(e) is not None:
                 inner = strip(is_try(e))
                 if inner.get("ty", "").startswith("core::result::Result<(), "):
